@@ -45,9 +45,12 @@ Theorem C16_gate : forall msaddr stdacc h160 prevN verN, prevN < verN ->
 Proof. intros msaddr stdacc h160 prevN verN _. apply update_halt_gate. Qed.
 Print Assumptions C16_gate.
 
-(** The gate address is the (n/2+1)-of-n account of the committee — of the
-    NeoFS Alphabet designated in RoleManagement for neofs and processing —
-    and n/2+1 is a strict majority.  (NNS computes l-(l-1)/2: the same.) *)
+(** The gate address is the (n/2+1)-of-n account of the committee — for neofs
+    and processing of the NeoFS Alphabet that RoleManagement has in force for
+    the block the transaction executes in, [e_designated e (e_height e + 1)]
+    — and n/2+1 is a strict majority.  (NNS computes l-(l-1)/2: the same.)
+    The committee-gated updates of the other nine contracts read
+    neo.GetCommittee(), which takes no index. *)
 Theorem C16_gate_majority : forall msaddr c e a,
   gate_address msaddr c e = Halt a ->
   let keys := gate_keys c e in
@@ -425,6 +428,29 @@ Proof.
     split; vm_compute; reflexivity.
   - vm_compute. repeat split; reflexivity.
 Qed.
+
+(** The designation boundary.  Alphabet A is in force from block 5; B is
+    designated by a transaction of block 10, hence stored under index 11.  An
+    update of processing (or neofs) executing in block 10 — CurrentIndex() = 9,
+    even after the designating transaction in the same block — is gated by A;
+    executing in block 11 or later it is gated by B, and A's majority is
+    refused. *)
+Definition ex_alphaA : list bytes := [[11%N]; [12%N]; [13%N]].
+Definition ex_alphaB : list bytes := [[12%N]; [13%N]; [14%N]].
+Definition ex_des_env (h : Z) (wit : list bytes) : env :=
+  env_basic h ex_committee [(5, ex_alphaA); (11, ex_alphaB)] wit.
+Definition ex_proc_update (c : contract) (h : Z) (signer : list bytes) : bool :=
+  snd (update_tx ex_ms (fun _ => None) (fun x => x) real_prev real_version c
+                 (ex_des_env h [ex_ms 2 signer]) true INull (mkC ∅ real_prev)).
+Example C16_gate_designation_boundary :
+  map (fun c => (ex_proc_update c 9 ex_alphaA, ex_proc_update c 9 ex_alphaB,
+                 ex_proc_update c 10 ex_alphaA, ex_proc_update c 10 ex_alphaB,
+                 ex_proc_update c 11 ex_alphaA, ex_proc_update c 11 ex_alphaB,
+                 ex_proc_update c 10 ex_committee)) [CProcessing; CNeoFS]
+  = [ (true, false, false, true, false, true, false); (true, false, false, true, false, true, false) ] /\
+  gate_keys CProcessing (ex_des_env 10 []) = ex_alphaB /\ gate_keys CProcessing (ex_des_env 9 []) = ex_alphaA /\
+  gate_keys CProcessing (ex_des_env 3 []) = [].
+Proof. vm_compute. repeat split; reflexivity. Qed.
 
 (** The Balance premise is needed: a prefixed namesake of an account is
     overwritten (the prefixed key's own balance is lost). *)
